@@ -27,7 +27,7 @@ EXPLANATION = (
     'partial-table memos are compared with the sets triaged on the reference tree; a new one is reported. R6: a memo written '
     'in the try/except-AttributeError idiom stores exactly the value its first call returns. Equality of '
     'answers under concrete query orders is NOT decided.')
-TECHNIQUE = 'memo-site inventory + typed call-graph cycle analysis through re-entrancy-guarded functions'
+TECHNIQUE = 'memo-site inventory + typed call-graph cycle analysis through re-entrancy-guarded functions + abstract interpretation of the memo decorators and of the evaluation guard'
 
 SCOPE = 'supp/scope.py'
 
